@@ -6,6 +6,6 @@ CONSTANTS
   Crash = FALSE
   ReporterBug = "none"
 SPECIFICATION Spec
-INVARIANTS DrawsExact DrawsComplete ExitOnlyWhenAllFinal CountOnce BarsBounded
+INVARIANTS DrawsExact DrawsComplete ExitOnlyWhenAllFinal CountOnce BarsBounded BookAsSets
 PROPERTY Termination
 CHECK_DEADLOCK FALSE
